@@ -66,15 +66,32 @@ Definition fl_pow (a b : fl) : option fl :=
   | _ => None
   end.
 
+(* An arithmetic operator reads its operands as binary64 values: a term of type fl that is not the normal form of
+   a representable finite value (FFin 2 0, FFin 1 5000, Inf, NaN) is outside the exact model - the operation is
+   undefined (None) on it.  Every value the model ever produces (numbers, constants, results, the arguments the
+   harness passes) is such a normal form, on which [fl_in] is the identity (Gen/InstanceProofs.v good_fl_in). *)
+Definition fl_in (a : fl) : option fl :=
+  match a with
+  | FFin m e => mkfl m e
+  | FNegZero => Some FNegZero
+  | _ => None
+  end.
+
+Definition chk2 (f : fl -> fl -> option fl) (a b : fl) : option fl :=
+  match fl_in a, fl_in b with
+  | Some a', Some b' => f a' b'
+  | _, _ => None
+  end.
+
 Definition float_binimpl (name : str) : fl -> fl -> option fl :=
   match name with
   | [61] => fun a b => Some (fl_of_bool (fl_eqb a b))      (* = *)
   | [60] => fun a b => Some (fl_of_bool (fl_ltb a b))      (* < *)
   | [62] => fun a b => Some (fl_of_bool (fl_ltb b a))      (* > *)
-  | [43] => fl_add
-  | [45] => fl_sub
-  | [42] => fl_mul
-  | [47] => fl_div
+  | [43] => chk2 fl_add
+  | [45] => chk2 fl_sub
+  | [42] => chk2 fl_mul
+  | [47] => chk2 fl_div
   | [94] => fl_pow
   | _ => fun _ _ => None
   end.
@@ -151,6 +168,11 @@ Definition float_samples_ok : bool :=
                                  end
                     | None => false
                     end) ex_float_tobool_samples.
+
+(* the operators that may be flagged commutative: sum and product (their regrouping law is proved in
+   Sem/NumProofs.v and Gen/InstanceProofs.v); any other flagged operator fails this check *)
+Definition float_flags_justified (ops : list (str * bool * bool)) : bool :=
+  forallb (fun e => let '(name, _, comm) := e in negb comm || str_eqb name [43] || str_eqb name [42]) ops.
 
 (* how many samples the model decides (non-vacuity of the obligation above) *)
 Definition float_samples_defined : nat :=
